@@ -9,13 +9,22 @@ mod ops_edits;
 mod wire;
 mod ops_apply;
 
+/// every `ops_*.rs` owns some operations: `dispatch(fields) -> Option<String>` (None = not mine)
+const HANDLERS: &[fn(&[&str]) -> Option<String>] = &[
+    ops_edits::dispatch,
+    ops_apply::dispatch,
+];
+
 fn dispatch(fields: &[&str]) -> String {
-    match fields.first().copied() {
-        Some("edits") => ops_edits::edits(&fields[1..]),
-        Some("applytree") => ops_apply::applytree(&fields[1..]),
-        Some("ping") => "pong".to_string(),
-        _ => "bad-op".to_string(),
+    if fields.first().copied() == Some("ping") {
+        return "pong".to_string();
     }
+    for h in HANDLERS {
+        if let Some(s) = h(fields) {
+            return s;
+        }
+    }
+    "bad-op".to_string()
 }
 
 fn main() {
